@@ -1,1 +1,955 @@
-// placeholder
+//! The simulated world of one client session: transport (`SimIo`), the simulated MPD server (the
+//! executable sequential model) and the append-only boundary event log. Everything runs on one
+//! current-thread tokio runtime with paused (virtual) time.
+
+use std::collections::VecDeque;
+use std::io;
+use std::pin::Pin;
+use std::sync::{Arc, Mutex};
+use std::task::{Context, Poll, Waker};
+use std::time::Duration;
+
+use tokio::io::{AsyncRead, AsyncWrite, ReadBuf};
+use tokio::sync::Notify;
+use tokio::time::Instant;
+
+use crate::refmodel::tokenizer::tokenize;
+use crate::refmodel::wire::{AError, AFrame, DFrame};
+use crate::util::rng::{mix, Rng};
+
+// ---------------------------------------------------------------------------------------------
+// Event log
+
+#[derive(Clone, Copy, Debug, PartialEq, Eq, Hash, PartialOrd, Ord)]
+pub struct CallId {
+    pub caller: usize,
+    pub seq: usize,
+}
+
+#[derive(Clone, Debug, PartialEq, Eq)]
+pub enum CallResult {
+    Frames(Vec<DFrame>),
+    ErrResponse { error: AError, frames: Vec<DFrame> },
+    ErrClosed,
+    ErrProtocol(String),
+    ErrTyped(String),
+    /// typed result rendered by the workload (tokens etc.)
+    Typed(Vec<String>),
+    Art(Option<(Vec<u8>, Option<String>)>),
+    Panicked(String),
+}
+
+impl CallResult {
+    pub fn short(&self) -> String {
+        match self {
+            CallResult::Frames(f) => format!("ok({} frames)", f.len()),
+            CallResult::ErrResponse { error, frames } => format!("ack(code {} index {}, {} frames)", error.code, error.index, frames.len()),
+            CallResult::ErrClosed => "err(connection closed)".into(),
+            CallResult::ErrProtocol(k) => format!("err(protocol: {})", k),
+            CallResult::ErrTyped(k) => format!("err(typed: {})", k),
+            CallResult::Typed(t) => format!("typed({})", t.join(",")),
+            CallResult::Art(a) => format!("art({:?})", a.as_ref().map(|(b, m)| (b.len(), m.clone()))),
+            CallResult::Panicked(m) => format!("panicked({})", m),
+        }
+    }
+    pub fn is_ok(&self) -> bool {
+        matches!(self, CallResult::Frames(_) | CallResult::Typed(_) | CallResult::Art(_))
+    }
+}
+
+#[derive(Clone, Copy, Debug, PartialEq, Eq)]
+pub enum Phase {
+    Normal,
+    Idle,
+}
+
+#[derive(Clone, Copy, Debug, PartialEq, Eq)]
+pub enum ReplyKind {
+    Greeting,
+    /// reply to `idle` (server-initiated or immediate)
+    Idle,
+    /// reply to `noidle`
+    Noidle,
+    /// reply to a request (single command or list)
+    Request,
+    Garbage,
+}
+
+#[derive(Clone, Debug)]
+pub enum EvKind {
+    CallStart { call: CallId, desc: String },
+    CallEnd { call: CallId, result: CallResult },
+    CallCancelled { call: CallId },
+    ClientWrote { off: u64, bytes: Vec<u8> },
+    ClientRead { upto: u64 },
+    /// the server processed a complete request line (index among all lines it received)
+    ServerGot { line_idx: usize, line: Vec<u8>, phase: Phase },
+    /// `for_lines`: the request-line indices this output answers (a list block answers several)
+    ServerWrote { kind: ReplyKind, start: u64, end: u64, changed: Vec<String>, for_lines: Vec<usize> },
+    ServerViolation { line: Vec<u8>, why: String },
+    Notify { names: Vec<String>, while_idle: bool },
+    EventChange(String),
+    EventClosed(String),
+    EventEnd,
+    Hook(String),
+    Fault(String),
+    TransportDropped,
+    HandlesDropped,
+    ServerClosed,
+    Note(String),
+}
+
+#[derive(Clone, Debug)]
+pub struct Ev {
+    pub t: u64,
+    pub kind: EvKind,
+}
+
+impl Ev {
+    pub fn render(&self) -> String {
+        let t = format!("{:>12.6}ms", self.t as f64 / 1e6);
+        let b = |v: &Vec<u8>| {
+            let s = String::from_utf8_lossy(&v[..v.len().min(80)]).replace('\n', "\\n");
+            if v.len() > 80 {
+                format!("{}…({}B)", s, v.len())
+            } else {
+                s
+            }
+        };
+        match &self.kind {
+            EvKind::CallStart { call, desc } => format!("{} c{}#{} call  {}", t, call.caller, call.seq, desc),
+            EvKind::CallEnd { call, result } => format!("{} c{}#{} ret   {}", t, call.caller, call.seq, result.short()),
+            EvKind::CallCancelled { call } => format!("{} c{}#{} CANCELLED", t, call.caller, call.seq),
+            EvKind::ClientWrote { off, bytes } => format!("{} client wrote @{}: {}", t, off, b(bytes)),
+            EvKind::ClientRead { upto } => format!("{} client read up to {}", t, upto),
+            EvKind::ServerGot { line_idx, line, phase } => format!("{} server got line {} in {:?}: {}", t, line_idx, phase, b(line)),
+            EvKind::ServerWrote { kind, start, end, changed, for_lines } => format!("{} server wrote {:?} [{}..{}) changed={:?} for_lines={:?}", t, kind, start, end, changed, for_lines),
+            EvKind::ServerViolation { line, why } => format!("{} SERVER SAW PROTOCOL VIOLATION: {} ({})", t, b(line), why),
+            EvKind::Notify { names, while_idle } => format!("{} server-side change {:?} (idle: {})", t, names, while_idle),
+            EvKind::EventChange(n) => format!("{} event SubsystemChange({})", t, n),
+            EvKind::EventClosed(d) => format!("{} event ConnectionClosed({})", t, d),
+            EvKind::EventEnd => format!("{} event stream ended", t),
+            EvKind::Hook(h) => format!("{} hook {}", t, h),
+            EvKind::Fault(f) => format!("{} FAULT {}", t, f),
+            EvKind::TransportDropped => format!("{} transport dropped", t),
+            EvKind::HandlesDropped => format!("{} all client handles dropped", t),
+            EvKind::ServerClosed => format!("{} server closed the connection", t),
+            EvKind::Note(n) => format!("{} note {}", t, n),
+        }
+    }
+}
+
+// ---------------------------------------------------------------------------------------------
+// Configuration
+
+#[derive(Clone, Debug, PartialEq, Eq)]
+pub enum SegPolicy {
+    Whole,
+    PerLine,
+    PerByte,
+    /// up to k random cut points
+    Random(usize),
+}
+
+#[derive(Clone, Debug)]
+pub enum Fault {
+    None,
+    /// end of stream once the client has read `k` bytes (counting the greeting)
+    EofAfter(u64),
+    /// every read fails once the client has read `k` bytes
+    ReadErrAfter(u64),
+    /// splice bytes into the server's output at stream offset `k`
+    GarbageAt(u64, Vec<u8>),
+    /// every write fails from the j-th write call on
+    WriteErrFrom(usize),
+    /// the server closes the connection (after flushing) at the given virtual time
+    ServerCloseAt(Duration),
+}
+
+#[derive(Clone, Debug)]
+pub enum PasswordVerdict {
+    Accept,
+    Reject(u64),
+    Close,
+    Garbage,
+    CutInsideReply,
+}
+
+#[derive(Clone, Debug)]
+pub struct ArtStore {
+    pub embedded: Option<(Vec<u8>, Option<String>)>,
+    pub cover: Option<Vec<u8>>,
+    pub limit: usize,
+    pub readpicture_supported: bool,
+    /// ACK code the embedded / cover command answers with instead (0 = none)
+    pub embedded_ack: u64,
+    pub cover_ack: u64,
+}
+
+#[derive(Clone, Debug)]
+pub struct WorldCfg {
+    pub seed: u64,
+    pub greeting: Vec<u8>,
+    pub read_cap: usize,
+    pub pending_p: u32,
+    pub write_cap: usize,
+    pub c2s_latency: Vec<Duration>,
+    pub reply_delay: Vec<Duration>,
+    pub chunk_delay: Vec<Duration>,
+    pub seg: Vec<SegPolicy>,
+    /// segmentation used for idle/noidle replies (to aim at P1)
+    pub idle_seg: Vec<SegPolicy>,
+    pub idle_chunk_delay: Vec<Duration>,
+    pub pending_as_set: bool,
+    pub fault: Fault,
+    pub password: Option<(String, PasswordVerdict)>,
+    pub art: Option<ArtStore>,
+}
+
+impl WorldCfg {
+    pub fn plain(seed: u64) -> WorldCfg {
+        WorldCfg {
+            seed,
+            greeting: b"OK MPD 0.23.5\n".to_vec(),
+            read_cap: usize::MAX,
+            pending_p: 0,
+            write_cap: usize::MAX,
+            c2s_latency: vec![Duration::ZERO],
+            reply_delay: vec![Duration::ZERO],
+            chunk_delay: vec![Duration::ZERO],
+            seg: vec![SegPolicy::Whole],
+            idle_seg: vec![SegPolicy::Whole],
+            idle_chunk_delay: vec![Duration::ZERO],
+            pending_as_set: true,
+            fault: Fault::None,
+            password: None,
+            art: None,
+        }
+    }
+}
+
+// ---------------------------------------------------------------------------------------------
+// The deterministic reply function of the raw workload
+
+pub const SHAPES: usize = 7;
+
+/// Reply to `vreq K N SHAPE [I]`: a pure function of the request id, recomputable by checkers.
+pub fn vreq_reply(k: u64, n: u64, i: u64, shape: u64) -> AFrame {
+    let mut r = Rng::keyed(&[0x7265_706c, k, n, i, shape]);
+    let mut fields = vec![("id".to_string(), format!("{}-{}-{}", k, n, i))];
+    let mut binary = None;
+    match shape % SHAPES as u64 {
+        0 => {}
+        1 => {
+            for j in 0..3 {
+                fields.push((format!("f{}", ["a", "b", "c"][j]), format!("{}", r.next_u64())));
+            }
+        }
+        2 => {
+            for j in 0..20 {
+                fields.push((["Artist", "Title", "file", "x-y", "OK"][j % 5].to_string(), format!("v{} é {}", j, r.next_u64() % 1000)));
+            }
+        }
+        3 => {
+            let n = 4096 + (r.next_u64() % 600) as usize;
+            let mut v = String::new();
+            while v.len() < n {
+                v.push_str("0123456789abcdef");
+            }
+            fields.push(("big".to_string(), v));
+        }
+        4 => {
+            fields.push(("size".to_string(), "9000".to_string()));
+            let mut b = r.bytes(9000);
+            for p in (0..b.len()).step_by(257) {
+                b[p] = b'\n';
+            }
+            b[100..103].copy_from_slice(b"OK\n");
+            b[5000..5008].copy_from_slice(b"list_OK\n");
+            binary = Some((fields.len(), b));
+        }
+        5 => {
+            let opts: [&[u8]; 4] = [b"OK\n", b"list_OK\n", b"ACK [5@0] {} x\n", b"changed: player\nOK\n"];
+            binary = Some((1, opts[(r.next_u64() % 4) as usize].to_vec()));
+        }
+        _ => {
+            // looks like an idle reply
+            fields.push(("changed".to_string(), "player".to_string()));
+            fields.push(("changed".to_string(), "mixer".to_string()));
+        }
+    }
+    AFrame { fields, binary }
+}
+
+pub fn vfail_error(k: u64, n: u64, idx: u64, code: u64) -> AError {
+    AError { code, index: idx, command: Some("vfail".to_string()), message: format!("scripted failure {}-{}", k, n) }
+}
+
+// ---------------------------------------------------------------------------------------------
+// Shared state
+
+struct OutChunk {
+    bytes: Vec<u8>,
+    release_at: Instant,
+}
+
+pub struct Inner {
+    pub cfg: WorldCfg,
+    t0: Instant,
+    pub log: Vec<Ev>,
+    rng: Rng,
+    // server -> client
+    out: VecDeque<OutChunk>,
+    avail: VecDeque<u8>,
+    last_release: Instant,
+    pub s2c_written: u64,
+    pub s2c_delivered: u64,
+    read_waker: Option<Waker>,
+    pub line_starts: Vec<u64>,
+    // client -> server
+    c2s: VecDeque<(Vec<u8>, Instant)>,
+    pub c2s_written: u64,
+    pub write_calls: usize,
+    // faults
+    garbage_done: bool,
+    pub fault_fired: bool,
+    // transport lifecycle
+    pub dropped: bool,
+    // server
+    pub phase: Phase,
+    pub pending: Vec<String>,
+    linebuf: Vec<u8>,
+    in_list: Option<(usize, Vec<(usize, Vec<u8>)>, bool)>,
+    pub lines_seen: usize,
+    pub server_closed: bool,
+    pub authed: bool,
+    pub violations: usize,
+    reply_counter: u64,
+    status_counter: u64,
+    pub requests_executed: usize,
+}
+
+#[derive(Clone)]
+pub struct World {
+    pub inner: Arc<Mutex<Inner>>,
+    deliver_notify: Arc<Notify>,
+    server_notify: Arc<Notify>,
+}
+
+impl Inner {
+    fn now(&self) -> u64 {
+        Instant::now().duration_since(self.t0).as_nanos() as u64
+    }
+    pub fn push(&mut self, kind: EvKind) {
+        let t = self.now();
+        self.log.push(Ev { t, kind });
+    }
+    fn pick<T: Clone>(&mut self, xs: &[T], salt: u64) -> T {
+        let k = mix(&[self.cfg.seed, salt, self.reply_counter]) as usize % xs.len();
+        xs[k].clone()
+    }
+}
+
+impl World {
+    pub fn new(cfg: WorldCfg) -> World {
+        let t0 = Instant::now();
+        let rng = Rng::keyed(&[cfg.seed, 0x776f726c64]);
+        let authed = cfg.password.is_none();
+        let inner = Inner {
+            cfg,
+            t0,
+            log: Vec::new(),
+            rng,
+            out: VecDeque::new(),
+            avail: VecDeque::new(),
+            last_release: t0,
+            s2c_written: 0,
+            s2c_delivered: 0,
+            read_waker: None,
+            line_starts: Vec::new(),
+            c2s: VecDeque::new(),
+            c2s_written: 0,
+            write_calls: 0,
+            garbage_done: false,
+            fault_fired: false,
+            dropped: false,
+            phase: Phase::Normal,
+            pending: Vec::new(),
+            linebuf: Vec::new(),
+            in_list: None,
+            lines_seen: 0,
+            server_closed: false,
+            authed,
+            violations: 0,
+            reply_counter: 0,
+            status_counter: 0,
+            requests_executed: 0,
+        };
+        World { inner: Arc::new(Mutex::new(inner)), deliver_notify: Arc::new(Notify::new()), server_notify: Arc::new(Notify::new()) }
+    }
+
+    pub fn io(&self) -> SimIo {
+        SimIo { w: self.clone() }
+    }
+
+    pub fn log_ev(&self, kind: EvKind) {
+        self.inner.lock().unwrap().push(kind);
+    }
+
+    pub fn now_ns(&self) -> u64 {
+        self.inner.lock().unwrap().now()
+    }
+
+    /// Queue server output, cut into chunks by the policy, with virtual delays.
+    fn emit(&self, g: &mut Inner, kind: ReplyKind, bytes: Vec<u8>, changed: Vec<String>, for_lines: Vec<usize>, line_offsets: &[usize]) {
+        g.reply_counter += 1;
+        let is_idle_kind = matches!(kind, ReplyKind::Idle | ReplyKind::Noidle);
+        let (segs, delays) = if is_idle_kind { (g.cfg.idle_seg.clone(), g.cfg.idle_chunk_delay.clone()) } else { (g.cfg.seg.clone(), g.cfg.chunk_delay.clone()) };
+        let seg = g.pick(&segs, 1);
+        let chunk_delay = g.pick(&delays, 2);
+        let reply_delays = g.cfg.reply_delay.clone();
+        let reply_delay = if kind == ReplyKind::Greeting { Duration::ZERO } else { g.pick(&reply_delays, 3) };
+        let start = g.s2c_written;
+        for lo in line_offsets {
+            g.line_starts.push(start + *lo as u64);
+        }
+        // garbage fault: splice into the stream at the configured offset
+        let mut bytes = bytes;
+        if let Fault::GarbageAt(k, garbage) = g.cfg.fault.clone() {
+            if !g.garbage_done && k >= start && k < start + bytes.len() as u64 {
+                let p = (k - start) as usize;
+                let tail = bytes.split_off(p);
+                bytes.extend_from_slice(&garbage);
+                bytes.extend_from_slice(&tail);
+                g.garbage_done = true;
+                g.fault_fired = true;
+                g.push(EvKind::Fault(format!("garbage {:?} spliced at server output offset {}", String::from_utf8_lossy(&garbage), k)));
+            }
+        }
+        let len = bytes.len();
+        let end = start + len as u64;
+        g.s2c_written = end;
+        g.push(EvKind::ServerWrote { kind, start, end, changed, for_lines });
+        // chunking
+        let mut cuts: Vec<usize> = match seg {
+            SegPolicy::Whole => vec![],
+            SegPolicy::PerLine => bytes.iter().enumerate().filter(|(_, &b)| b == b'\n').map(|(i, _)| i + 1).filter(|&c| c < len).collect(),
+            SegPolicy::PerByte => (1..len).collect(),
+            SegPolicy::Random(k) => {
+                let mut v = Vec::new();
+                if len >= 2 {
+                    let n = 1 + (g.rng.next_u64() as usize % k.max(1));
+                    for _ in 0..n {
+                        v.push(1 + g.rng.below(len - 1));
+                    }
+                }
+                v
+            }
+        };
+        cuts.sort_unstable();
+        cuts.dedup();
+        if cuts.len() > 64 && seg != SegPolicy::PerByte {
+            cuts.truncate(64);
+        }
+        let now = Instant::now();
+        let mut release = std::cmp::max(g.last_release, now + reply_delay);
+        let mut prev = 0usize;
+        let mut pieces: Vec<(usize, usize)> = Vec::new();
+        for c in cuts {
+            pieces.push((prev, c));
+            prev = c;
+        }
+        pieces.push((prev, len));
+        for (k, (a, b)) in pieces.into_iter().enumerate() {
+            if k > 0 {
+                release += chunk_delay;
+            }
+            g.out.push_back(OutChunk { bytes: bytes[a..b].to_vec(), release_at: release });
+        }
+        g.last_release = release;
+        self.deliver_notify.notify_one();
+    }
+
+    /// Server-side subsystem change (from the notification schedule or the driver).
+    pub fn change(&self, names: &[String]) {
+        let mut g = self.inner.lock().unwrap();
+        if g.server_closed {
+            return;
+        }
+        let while_idle = g.phase == Phase::Idle;
+        g.push(EvKind::Notify { names: names.to_vec(), while_idle });
+        if while_idle {
+            let (bytes, offs) = changed_reply(names);
+            g.phase = Phase::Normal;
+            self.emit(&mut g, ReplyKind::Idle, bytes, names.to_vec(), vec![], &offs);
+        } else {
+            for n in names {
+                if !(g.cfg.pending_as_set && g.pending.contains(n)) {
+                    g.pending.push(n.clone());
+                }
+            }
+        }
+    }
+
+    /// Everything the server queued has been read by the client.
+    pub fn all_output_delivered(&self) -> bool {
+        let g = self.inner.lock().unwrap();
+        g.out.is_empty() && g.avail.is_empty() && g.s2c_delivered == g.s2c_written
+    }
+
+    pub fn close_server(&self) {
+        let mut g = self.inner.lock().unwrap();
+        if !g.server_closed {
+            g.server_closed = true;
+            g.push(EvKind::ServerClosed);
+            if let Some(w) = g.read_waker.take() {
+                w.wake();
+            }
+            self.deliver_notify.notify_one();
+        }
+    }
+
+    /// The task that makes queued output available to the client at its release time.
+    pub async fn run_deliverer(self) {
+        loop {
+            let next = {
+                let mut g = self.inner.lock().unwrap();
+                if g.dropped {
+                    return;
+                }
+                g.out.pop_front()
+            };
+            match next {
+                None => self.deliver_notify.notified().await,
+                Some(chunk) => {
+                    tokio::time::sleep_until(chunk.release_at).await;
+                    let mut g = self.inner.lock().unwrap();
+                    g.avail.extend(chunk.bytes);
+                    if let Some(w) = g.read_waker.take() {
+                        w.wake();
+                    }
+                }
+            }
+        }
+    }
+
+    /// The server task: greeting, then request lines as they become visible.
+    pub async fn run_server(self) {
+        {
+            let mut g = self.inner.lock().unwrap();
+            let greeting = g.cfg.greeting.clone();
+            self.emit(&mut g, ReplyKind::Greeting, greeting, vec![], vec![], &[0]);
+        }
+        loop {
+            let next = {
+                let mut g = self.inner.lock().unwrap();
+                if g.dropped {
+                    return;
+                }
+                g.c2s.pop_front()
+            };
+            match next {
+                None => self.server_notify.notified().await,
+                Some((bytes, visible_at)) => {
+                    tokio::time::sleep_until(visible_at).await;
+                    let mut g = self.inner.lock().unwrap();
+                    if g.server_closed {
+                        continue;
+                    }
+                    g.linebuf.extend_from_slice(&bytes);
+                    while let Some(lf) = g.linebuf.iter().position(|&b| b == b'\n') {
+                        let line: Vec<u8> = g.linebuf.drain(..=lf).take(lf).collect();
+                        self.handle_line(&mut g, line);
+                        if g.server_closed {
+                            break;
+                        }
+                    }
+                }
+            }
+        }
+    }
+
+    fn handle_line(&self, g: &mut Inner, line: Vec<u8>) {
+        let idx = g.lines_seen;
+        g.lines_seen += 1;
+        let phase = g.phase;
+        g.push(EvKind::ServerGot { line_idx: idx, line: line.clone(), phase });
+        if phase == Phase::Idle {
+            if line == b"noidle" {
+                let names = std::mem::take(&mut g.pending);
+                let (bytes, offs) = changed_reply(&names);
+                g.phase = Phase::Normal;
+                self.emit(g, ReplyKind::Noidle, bytes, names, vec![idx], &offs);
+            } else {
+                // MPD: `command "..." during idle` -> the connection is closed
+                g.violations += 1;
+                g.push(EvKind::ServerViolation { line, why: "anything but noidle while the server waits in idle".into() });
+                g.server_closed = true;
+                g.push(EvKind::ServerClosed);
+                if let Some(w) = g.read_waker.take() {
+                    w.wake();
+                }
+            }
+            return;
+        }
+        // Normal
+        if let Some((begin_idx, lines, ok_mode)) = g.in_list.as_mut() {
+            if line == b"command_list_end" {
+                let (begin_idx, lines, ok_mode) = (*begin_idx, std::mem::take(lines), *ok_mode);
+                g.in_list = None;
+                let mut out = Vec::new();
+                let mut offs = Vec::new();
+                let mut for_lines: Vec<usize> = vec![begin_idx];
+                for_lines.extend(lines.iter().map(|(i, _)| *i));
+                for_lines.push(idx);
+                let mut failed = false;
+                for (k, (_, l)) in lines.iter().enumerate() {
+                    match self.execute(g, l, k as u64) {
+                        Ok(frame) => {
+                            encode_frame(&frame, &mut out, &mut offs);
+                            if ok_mode {
+                                offs.push(out.len());
+                                out.extend_from_slice(b"list_OK\n");
+                            }
+                        }
+                        Err(e) => {
+                            offs.push(out.len());
+                            e.encode_into(&mut out);
+                            failed = true;
+                            break;
+                        }
+                    }
+                }
+                if !failed {
+                    offs.push(out.len());
+                    out.extend_from_slice(b"OK\n");
+                }
+                self.emit(g, ReplyKind::Request, out, vec![], for_lines, &offs);
+            } else {
+                lines.push((idx, line));
+            }
+            return;
+        }
+        if line == b"command_list_ok_begin" || line == b"command_list_begin" {
+            // the opening line is answered together with the block
+            g.in_list = Some((idx, vec![], line == b"command_list_ok_begin"));
+            return;
+        }
+        if line == b"noidle" {
+            // MPD ignores noidle when not idling; no reply
+            return;
+        }
+        if line == b"idle" || line.starts_with(b"idle ") {
+            if !g.authed {
+                let mut out = Vec::new();
+                AError { code: 4, index: 0, command: Some("idle".into()), message: "you don't have permission for \"idle\"".into() }.encode_into(&mut out);
+                self.emit(g, ReplyKind::Request, out, vec![], vec![idx], &[0]);
+                return;
+            }
+            if g.pending.is_empty() {
+                g.phase = Phase::Idle;
+            } else {
+                let names = std::mem::take(&mut g.pending);
+                let (bytes, offs) = changed_reply(&names);
+                self.emit(g, ReplyKind::Idle, bytes, names, vec![idx], &offs);
+            }
+            return;
+        }
+        // password verdicts that are not well-formed replies
+        if line.starts_with(b"password") {
+            if let Some((_, verdict)) = g.cfg.password.clone() {
+                match verdict {
+                    PasswordVerdict::Garbage => {
+                        self.emit(g, ReplyKind::Garbage, b"!! this is not MPD\n".to_vec(), vec![], vec![idx], &[0]);
+                        return;
+                    }
+                    PasswordVerdict::CutInsideReply => {
+                        self.emit(g, ReplyKind::Garbage, b"ACK [3@0] {passw".to_vec(), vec![], vec![idx], &[0]);
+                        g.server_closed = true;
+                        g.push(EvKind::ServerClosed);
+                        return;
+                    }
+                    _ => {}
+                }
+            }
+        }
+        // single command
+        let mut out = Vec::new();
+        let mut offs = Vec::new();
+        match self.execute(g, &line, 0) {
+            Ok(frame) => {
+                encode_frame(&frame, &mut out, &mut offs);
+                offs.push(out.len());
+                out.extend_from_slice(b"OK\n");
+            }
+            Err(e) => {
+                offs.push(0);
+                e.encode_into(&mut out);
+            }
+        }
+        if g.server_closed {
+            return;
+        }
+        self.emit(g, ReplyKind::Request, out, vec![], vec![idx], &offs);
+    }
+
+    /// Execute one request line; `idx` is its index within a command list.
+    fn execute(&self, g: &mut Inner, line: &[u8], idx: u64) -> Result<AFrame, AError> {
+        g.requests_executed += 1;
+        let (name, args) = match tokenize(line) {
+            Ok(x) => x,
+            Err(e) => return Err(AError { code: 5, index: idx, command: None, message: e.name().to_string() }),
+        };
+        let name = String::from_utf8_lossy(&name).to_string();
+        let arg = |k: usize| -> String { args.get(k).map(|a| String::from_utf8_lossy(a).to_string()).unwrap_or_default() };
+        let num = |k: usize| -> u64 { arg(k).parse().unwrap_or(0) };
+        let ack = |code: u64, msg: String| AError { code, index: idx, command: Some(name.clone()), message: msg };
+        if name == "password" {
+            return match g.cfg.password.clone() {
+                None => Ok(AFrame::empty()),
+                Some((pw, verdict)) => match verdict {
+                    PasswordVerdict::Accept if arg(0) == pw => {
+                        g.authed = true;
+                        Ok(AFrame::empty())
+                    }
+                    PasswordVerdict::Accept => Err(ack(3, "incorrect password".into())),
+                    PasswordVerdict::Reject(code) => Err(ack(code, "incorrect password".into())),
+                    PasswordVerdict::Close => {
+                        g.server_closed = true;
+                        g.push(EvKind::ServerClosed);
+                        if let Some(w) = g.read_waker.take() {
+                            w.wake();
+                        }
+                        Ok(AFrame::empty())
+                    }
+                    PasswordVerdict::Garbage | PasswordVerdict::CutInsideReply => Ok(AFrame::empty()), // handled by the caller
+                },
+            };
+        }
+        if !g.authed {
+            return Err(ack(4, format!("you don't have permission for \"{}\"", name)));
+        }
+        match name.as_str() {
+            "vreq" => Ok(vreq_reply(num(0), num(1), if args.len() > 3 { num(3) } else { 0 }, num(2))),
+            "vfail" => Err(vfail_error(num(0), num(1), idx, num(2))),
+            "ping" => Ok(AFrame::empty()),
+            "close" => {
+                g.server_closed = true;
+                g.push(EvKind::ServerClosed);
+                if let Some(w) = g.read_waker.take() {
+                    w.wake();
+                }
+                Ok(AFrame::empty())
+            }
+            // ---- typed workloads: replies carry a token of the command's own argument ----------
+            "update" | "rescan" => Ok(frame1("updating_db", token(&arg(0)))),
+            "addid" => Ok(frame1("Id", token(&arg(0)))),
+            "sticker" if arg(0) == "get" => Ok(frame1("sticker", format!("{}={}", arg(3), token(&arg(3))))),
+            "count" => Ok(AFrame { fields: vec![("songs".into(), format!("{}", filter_token(&arg(0)))), ("playtime".into(), "0".into())], binary: None }),
+            "listplaylistinfo" => Ok(frame1("file", arg(0))),
+            "status" => {
+                g.status_counter += 1;
+                let c = g.status_counter;
+                Ok(AFrame {
+                    fields: vec![("repeat".into(), "0".into()), ("random".into(), "0".into()), ("consume".into(), "0".into()), ("playlist".into(), format!("{}", c)), ("state".into(), "stop".into())],
+                    binary: None,
+                })
+            }
+            "stats" => Ok(AFrame {
+                fields: ["uptime", "playtime", "artists", "albums", "songs", "db_playtime", "db_update"].iter().map(|k| (k.to_string(), "7".to_string())).collect(),
+                binary: None,
+            }),
+            "currentsong" => Ok(AFrame::empty()),
+            "readpicture" | "albumart" => {
+                let Some(art) = g.cfg.art.clone() else {
+                    return Err(ack(5, format!("unknown command \"{}\"", name)));
+                };
+                let embedded = name == "readpicture";
+                if embedded && !art.readpicture_supported {
+                    return Err(ack(5, "unknown command \"readpicture\"".into()));
+                }
+                let code = if embedded { art.embedded_ack } else { art.cover_ack };
+                if code != 0 {
+                    return Err(ack(code, "scripted art failure".into()));
+                }
+                let offset = num(1) as usize;
+                let (data, mime) = if embedded {
+                    match &art.embedded {
+                        Some((d, m)) => (d.clone(), m.clone()),
+                        None => return Ok(AFrame::empty()),
+                    }
+                } else {
+                    match &art.cover {
+                        Some(d) => (d.clone(), None),
+                        // MPD: albumart answers ACK [50@0] "No file exists" when there is no cover
+                        None => return Ok(AFrame::empty()),
+                    }
+                };
+                if offset > data.len() {
+                    return Err(ack(2, "Bad file offset".into()));
+                }
+                let end = (offset + art.limit.max(1)).min(data.len());
+                let mut fields = vec![("size".to_string(), format!("{}", data.len()))];
+                if let Some(m) = mime {
+                    fields.push(("type".to_string(), m));
+                }
+                Ok(AFrame { binary: Some((fields.len(), data[offset..end].to_vec())), fields })
+            }
+            _ => Err(ack(5, format!("unknown command \"{}\"", name))),
+        }
+    }
+}
+
+fn frame1(k: &str, v: impl ToString) -> AFrame {
+    AFrame { fields: vec![(k.to_string(), v.to_string())], binary: None }
+}
+
+/// numeric token of an argument such as `t17` / `n9` / `p4`: the digits it ends with
+pub fn token(s: &str) -> u64 {
+    let d: String = s.chars().rev().take_while(|c| c.is_ascii_digit()).collect::<String>().chars().rev().collect();
+    d.parse().unwrap_or(0)
+}
+
+/// token inside a filter argument `(Artist == "t17")`
+fn filter_token(s: &str) -> u64 {
+    let digits: String = s.chars().filter(|c| c.is_ascii_digit()).collect();
+    digits.parse().unwrap_or(0)
+}
+
+fn changed_reply(names: &[String]) -> (Vec<u8>, Vec<usize>) {
+    let mut out = Vec::new();
+    let mut offs = Vec::new();
+    for n in names {
+        offs.push(out.len());
+        out.extend_from_slice(format!("changed: {}\n", n).as_bytes());
+    }
+    offs.push(out.len());
+    out.extend_from_slice(b"OK\n");
+    (out, offs)
+}
+
+fn encode_frame(f: &AFrame, out: &mut Vec<u8>, offs: &mut Vec<usize>) {
+    let bpos = f.binary.as_ref().map(|(p, _)| (*p).min(f.fields.len()));
+    let put_bin = |out: &mut Vec<u8>, offs: &mut Vec<usize>| {
+        let b = &f.binary.as_ref().unwrap().1;
+        offs.push(out.len());
+        out.extend_from_slice(format!("binary: {}\n", b.len()).as_bytes());
+        out.extend_from_slice(b);
+        out.push(b'\n');
+    };
+    for (i, (k, v)) in f.fields.iter().enumerate() {
+        if bpos == Some(i) {
+            put_bin(out, offs);
+        }
+        offs.push(out.len());
+        out.extend_from_slice(format!("{}: {}\n", k, v).as_bytes());
+    }
+    if bpos == Some(f.fields.len()) {
+        put_bin(out, offs);
+    }
+}
+
+// ---------------------------------------------------------------------------------------------
+// Transport
+
+pub struct SimIo {
+    w: World,
+}
+
+impl AsyncRead for SimIo {
+    fn poll_read(self: Pin<&mut Self>, cx: &mut Context<'_>, buf: &mut ReadBuf<'_>) -> Poll<io::Result<()>> {
+        let mut g = self.w.inner.lock().unwrap();
+        // faults on the read side
+        match g.cfg.fault.clone() {
+            Fault::ReadErrAfter(k) if g.s2c_delivered >= k => {
+                if !g.fault_fired {
+                    g.fault_fired = true;
+                    g.push(EvKind::Fault(format!("reads fail (ConnectionReset) after {} bytes", k)));
+                }
+                return Poll::Ready(Err(io::Error::new(io::ErrorKind::ConnectionReset, "injected read error")));
+            }
+            Fault::EofAfter(k) if g.s2c_delivered >= k => {
+                if !g.fault_fired {
+                    g.fault_fired = true;
+                    g.push(EvKind::Fault(format!("end of stream after {} bytes", k)));
+                }
+                return Poll::Ready(Ok(()));
+            }
+            _ => {}
+        }
+        let pp = g.cfg.pending_p;
+        if pp > 0 && g.rng.chance(pp, 256) {
+            cx.waker().wake_by_ref();
+            return Poll::Pending;
+        }
+        let mut limit = buf.remaining().min(g.cfg.read_cap).min(g.avail.len());
+        match g.cfg.fault {
+            Fault::EofAfter(k) | Fault::ReadErrAfter(k) => {
+                limit = limit.min((k - g.s2c_delivered) as usize);
+            }
+            _ => {}
+        }
+        if limit == 0 {
+            if g.server_closed && g.avail.is_empty() && g.out.is_empty() {
+                return Poll::Ready(Ok(())); // EOF after a server-side close
+            }
+            g.read_waker = Some(cx.waker().clone());
+            return Poll::Pending;
+        }
+        let data: Vec<u8> = g.avail.drain(..limit).collect();
+        buf.put_slice(&data);
+        g.s2c_delivered += limit as u64;
+        let upto = g.s2c_delivered;
+        g.push(EvKind::ClientRead { upto });
+        Poll::Ready(Ok(()))
+    }
+}
+
+impl AsyncWrite for SimIo {
+    fn poll_write(self: Pin<&mut Self>, _cx: &mut Context<'_>, buf: &[u8]) -> Poll<io::Result<usize>> {
+        let mut g = self.w.inner.lock().unwrap();
+        let call = g.write_calls;
+        g.write_calls += 1;
+        if let Fault::WriteErrFrom(j) = g.cfg.fault {
+            if call >= j {
+                if !g.fault_fired {
+                    g.fault_fired = true;
+                    g.push(EvKind::Fault(format!("writes fail (BrokenPipe) from write call {}", j)));
+                }
+                return Poll::Ready(Err(io::Error::new(io::ErrorKind::BrokenPipe, "injected write error")));
+            }
+        }
+        let n = buf.len().min(g.cfg.write_cap.max(1));
+        let off = g.c2s_written;
+        g.c2s_written += n as u64;
+        g.push(EvKind::ClientWrote { off, bytes: buf[..n].to_vec() });
+        let lats = g.cfg.c2s_latency.clone();
+        let k = mix(&[g.cfg.seed, 9, off]) as usize % lats.len();
+        let mut visible = Instant::now() + lats[k];
+        // FIFO: never overtake earlier bytes
+        if let Some((_, last)) = g.c2s.back() {
+            if *last > visible {
+                visible = *last;
+            }
+        }
+        g.c2s.push_back((buf[..n].to_vec(), visible));
+        self.w.server_notify.notify_one();
+        Poll::Ready(Ok(n))
+    }
+    fn poll_flush(self: Pin<&mut Self>, _cx: &mut Context<'_>) -> Poll<io::Result<()>> {
+        Poll::Ready(Ok(()))
+    }
+    fn poll_shutdown(self: Pin<&mut Self>, _cx: &mut Context<'_>) -> Poll<io::Result<()>> {
+        Poll::Ready(Ok(()))
+    }
+}
+
+impl Drop for SimIo {
+    fn drop(&mut self) {
+        let mut g = self.w.inner.lock().unwrap();
+        g.dropped = true;
+        g.push(EvKind::TransportDropped);
+        self.w.deliver_notify.notify_one();
+        self.w.server_notify.notify_one();
+    }
+}
